@@ -465,7 +465,8 @@ func (g *Gen) paletteExpr(ctx int) {
 		g.kw(token.RPAREN)
 	case 9:
 		// a multi-line backtick string with a space before the line break
-		g.tok(token.RAW_STRING, "r \nq")
+		// (an escaped backtick inside, then a line ending in a space)
+		g.tok(token.RAW_STRING, "r` \nq")
 		g.emit(KRaw)
 	case 10:
 		g.emit(KBinary, int(token.PLUS))
